@@ -1,8 +1,10 @@
 #!/bin/sh
-# usage: tools/seed_matrix.sh "<seed dirs>" [tier]  -- run each seeded mutant's own property check on a scratch copy of /repo
+# usage: tools/seed_matrix.sh "<seed dirs>" [tier] [check id]
+# run each seeded mutant's own property check (or the given check) on a scratch copy of /repo; one line per seed
 TIER="${2:-quick}"
+HERE=$(cd "$(dirname "$0")/.." && pwd)
 for d in $1; do
-  id=$(basename $d); prop=${id%%-*}
-  out=$(tools/try_patch_scratch.sh $(readlink -f $d/patch.diff) $prop $TIER 2>&1 | tr '\n' '|' | cut -c1-700)
-  echo "$id: $out"
+  id=$(basename $d); prop=${3:-${id%%-*}}
+  out=$("$HERE/tools/try_patch_scratch.sh" $(readlink -f $d/patch.diff) $prop $TIER 2>&1 | grep -v conda | sed 's/^ *//' | tr '\n' '|' | cut -c1-600)
+  echo "$id [$prop]: $out"
 done
